@@ -20,6 +20,8 @@ from nrel.hive.reporting.report_type import ReportType
 from nrel.hive.state.driver_state.human_driver_state.human_driver_attributes import HumanDriverAttributes
 from nrel.hive.state.driver_state.human_driver_state.human_driver_state import HumanAvailable, HumanUnavailable
 from nrel.hive.state.simulation_state import simulation_state_ops
+from nrel.hive.state.simulation_state.update import step_simulation as ss_mod
+from nrel.hive.state.simulation_state.update.step_simulation import StepSimulation
 from nrel.hive.state.simulation_state.update.step_simulation_ops import perform_driver_state_updates
 from nrel.hive.model.sim_time import SimTime
 
@@ -88,6 +90,7 @@ def gen_case(rng: random.Random, k: int) -> Dict[str, Any]:
     raised = None
     for step in range(steps):
         env.reporter.reports = []
+        sim_before = sim
         try:
             sim = perform_driver_state_updates(sim, env)
         except Exception as e:
@@ -101,19 +104,35 @@ def gen_case(rng: random.Random, k: int) -> Dict[str, Any]:
                       if isinstance(v.driver_state, (HumanAvailable, HumanUnavailable))],
             "events": evs,
         })
-        # the built-in dispatcher on this state with a few fresh requests
+        # the built-in dispatcher in this step, with a few fresh requests: one whole real
+        # StepSimulation.update from the state the step started in (driver phase, generators,
+        # instruction stack, application - as the runner wires them); the result is discarded,
+        # what is kept is which trips were handed out and whether the driver was on shift then
         if rng.random() < 0.35:
-            s2 = sim
+            s2 = sim_before
             for _ in range(rng.randint(1, 4)):
                 s2 = simulation_state_ops.add_request_safe(s2, w.new_request(s2)).unwrap()
+            seen: Dict[str, Any] = {}
+            orig_apply = ss_mod.apply_instructions
+
+            def apply_spy(sim_, env_, instructions):
+                seen["final"] = list(instructions)
+                return orig_apply(sim_, env_, instructions)
+
+            ss_mod.apply_instructions = apply_spy
+            saved_reports = env.reporter.reports
             try:
-                _, instrs = dispatcher.generate_instructions(s2, env)
+                StepSimulation.from_tuple((dispatcher,)).update(s2, env)
             except Exception as e:
-                raised = {"step": step, "error": f"dispatcher {type(e).__name__}: {e}"[:200]}
+                raised = {"step": step, "error": f"step {type(e).__name__}: {e}"[:200]}
                 break
-            for i in instrs:
+            finally:
+                ss_mod.apply_instructions = orig_apply
+                env.reporter.reports = saved_reports
+            for i in seen.get("final", []):
                 if isinstance(i, DispatchTripInstruction):
-                    dispatched.append([int(sim.sim_time), [n.get("veh", i.vehicle_id), bool(s2.vehicles[i.vehicle_id].driver_state.available)]])
+                    # (availability as the driver phase of this very step left it: `sim`)
+                    dispatched.append([int(sim.sim_time), [n.get("veh", i.vehicle_id), bool(sim.vehicles[i.vehicle_id].driver_state.available)]])
         sim = simulation_state_ops.tick(sim)
     return {
         "op": "shift", "id": f"h{k}", "sim": sim_enc, "parent": n.parent_table(),
